@@ -23,8 +23,8 @@ ASSUMPTIONS = ["oracle step limit: a case on which the reference fixpoint gives 
                "the library's marking is exponential on some duplication-heavy grammars: a case that exceeds the "
                "wall-clock watchdog is counted inconclusive (tolerated up to 4 % of the cases), never judged"]
 TIERS = {
-    "quick": {"workers": 8, "random": 60, "products": 8, "case_timeout": 12, "inconclusive_tolerance": 0.04},
-    "thorough": {"workers": 16, "random": 1500, "products": 150, "case_timeout": 60, "inconclusive_tolerance": 0.02, "pytest": True, "exhaustive": True, "hard_timeout": 3300},
+    "quick": {"workers": 8, "random": 60, "products": 6, "word_products": 40, "case_timeout": 12, "inconclusive_tolerance": 0.04},
+    "thorough": {"workers": 16, "random": 1500, "products": 100, "word_products": 800, "case_timeout": 60, "inconclusive_tolerance": 0.02, "pytest": True, "exhaustive": True, "hard_timeout": 3300},
 }
 MIN = {"quick": {"C17.IndexedGrammar.is_empty": 10000, "C17.IndexedGrammar.remove_useless_rules": 100,
                  "C17.IndexedGrammar.intersection": 30, "C17.Rules.__init__": 10000},
@@ -125,6 +125,9 @@ def post_useless(st, self, args, kwargs, result, exc):
         core.report(PROP, "remove_useless_rules", "exception:" + type(exc).__name__, None, tags)
         return
     r2, s2 = ig_rules(result)
+    if len(rules) > 60:
+        core.LOG.discard("grammar_too_large_for_direct_oracle")     # e.g. the unpruned product inside FST.intersection
+        return
     if start != "S":
         core.LOG.discard("start_variable_not_S")
         return
@@ -248,6 +251,22 @@ def layered_rules(rng):
             if rng.random() < 0.5:
                 rules.append(("cons", "f", rng.choice(defined), z))     # two consumption rules, one target
         defined.append(x)
+    if rng.random() < 0.35 and len(names) >= 3:
+        # a non-generating non-terminal Z offered as one of several consumption alternatives, and used elsewhere
+        # where its non-generation decides the verdict
+        z = "Z"
+        rules.append(("dup", z, z, z))
+        cons = [r for r in rules if r[0] == "cons"]
+        if cons:
+            c = rng.choice(cons)
+            alt = ("cons", c[1], c[2], z)
+            rules.insert(rules.index(c) if rng.random() < 0.6 else len(rules), alt)
+        else:
+            y = rng.choice(defined)
+            rules.append(("prod", "S", y, "f"))
+            rules.append(("cons", "f", y, z))
+            rules.append(("cons", "f", y, rng.choice(defined)))
+        rules.append(("dup", rng.choice(names), z, rng.choice(defined)))
     for x in pure:
         # somebody pushes an f above a consumption-only non-terminal
         users = [n for n in names if n != x]
@@ -299,6 +318,36 @@ def plan(tier, rng, sl, nslices, stats):
         for r in dups[1:]:
             rules.remove(r)              # the library's marking is exponential in duplication rules on products
         yield {"rules": rules, "seed": rng.randrange(1 << 30), "fa": fa}
+    for _ in range(2):
+        # Sigma* as the regular language, from a fresh interpreter (import-state independence)
+        yield {"rules": [list(r) for r in rand_rules(rng, max_n=3)][:4], "seed": rng.randrange(1 << 30), "fresh": True}
+    for _ in range(cfg.get("word_products", 0)):
+        # grammars generating one short word (through duplications, optionally below a pushed-and-popped index),
+        # intersected with small eps-NFAs with self loops and epsilon moves: cheap products, exact expectation
+        word = [rng.choice("ab") for _ in range(rng.choice([1, 1, 2, 2, 3]))]
+        rules = []
+        nts = ["W%d" % i for i in range(len(word))]
+        for x, a in zip(nts, word):
+            rules.append(("end", x, a))
+        top = nts[0]
+        for i, x in enumerate(nts[1:]):
+            new_top = "J%d" % i
+            rules.append(("dup", new_top, top, x))
+            top = new_top
+        if rng.random() < 0.4:
+            rules.append(("prod", "S", "P", "f"))
+            rules.append(("cons", "f", "P", top))
+        else:
+            rules.append(("dup", "S", top, "E"))
+            rules.append(("end", "E", "epsilon"))
+        fa = gfa.random_case(rng, max_states=3, max_syms=2, kinds=("enfa",), vcs=["int", "str"])
+        fa["trans"] = fa["trans"][:5]
+        if rng.random() < 0.6 and fa["n"]:
+            s0 = rng.randrange(fa["n"])
+            fa["trans"].append([s0, rng.randrange(2), s0])          # a symbol read on a self loop
+            fa["trans"].append([s0, -1, rng.randrange(fa["n"])])    # ... left through an epsilon move
+            fa["trans"] = [list(t) for t in {tuple(t) for t in fa["trans"]}]
+        yield {"rules": [list(r) for r in rules], "seed": rng.randrange(1 << 30), "fa": fa, "word": word}
     if cfg.get("exhaustive"):
         tot = 0
         for i, rules in enumerate(small_exhaustive()):
@@ -309,7 +358,56 @@ def plan(tier, rng, sl, nslices, stats):
         stats.extra["exhaustive_scopes"] = "all %d rule sets over non-terminals {S,A}, one index, <=3 rules (x all permutations x optim 0..8)" % tot
 
 
+FRESH = """
+import sys
+from pyformlang.indexed_grammar import (Rules, ConsumptionRule, EndRule, ProductionRule, DuplicationRule, IndexedGrammar)
+from pyformlang.finite_automaton import DeterministicFiniteAutomaton
+rules = %r
+L = []
+for r in rules:
+    if r[0] == "end": L.append(EndRule(r[1], r[2]))
+    elif r[0] == "prod": L.append(ProductionRule(r[1], r[2], r[3]))
+    elif r[0] == "cons": L.append(ConsumptionRule(r[1], r[2], r[3]))
+    else: L.append(DuplicationRule(r[1], r[2], r[3]))
+d = DeterministicFiniteAutomaton()
+d.add_transition(0, "a", 0); d.add_transition(0, "b", 0); d.add_start_state(0); d.add_final_state(0)
+try:
+    print("RESULT", IndexedGrammar(Rules(L)).intersection(d).is_empty())
+except Exception as e:
+    print("EXC", type(e).__name__)
+"""
+
+
+def run_fresh(c, stats):
+    """the same call from a fresh interpreter that imported nothing but what the caller needs"""
+    import os
+    import subprocess
+    import sys
+    import pyformlang
+    rules = [tuple(r) for r in c["rules"]]
+    repo = os.path.dirname(os.path.dirname(os.path.abspath(pyformlang.__file__)))
+    with core.oracle_mode():
+        try:
+            ne = oracle(rules, "S")
+        except core.OracleGaveUp:
+            return False
+    env = dict(os.environ, PYTHONPATH=repo)
+    out = subprocess.run([sys.executable, "-B", "-c", FRESH % (rules,)], capture_output=True, text=True, env=env,
+                         timeout=120).stdout
+    core.LOG.count("C17.fresh_interpreter_calls")
+    with core.oracle_mode():
+        if "EXC" in out or "RESULT" not in out:
+            core.report(PROP, "intersection", "exception:" + (out.split()[-1] if out.split() else "none"),
+                        {"where": "fresh interpreter"}, ["fresh_interpreter"])
+        elif ("True" in out) != (not ne):
+            core.report(PROP, "intersection", "wrong-empty" if "True" in out else "wrong-nonempty",
+                        {"where": "fresh interpreter"}, ["fresh_interpreter"])
+    return True
+
+
 def run_case(c, stats):
+    if c.get("fresh"):
+        return run_fresh(c, stats)
     rules = [tuple(r) for r in c["rules"]]
     rng = random.Random(c["seed"])
     with core.oracle_mode():
@@ -333,6 +431,19 @@ def run_case(c, stats):
     if "fa" in c:
         from pyformlang.regular_expression import Regex
         fa = gfa.build(c["fa"])
+        if "word" in c:
+            with core.oracle_mode():
+                # oracle cross-check: the product is non-empty iff the automaton accepts the single word
+                acc = extract.fa(fa).accepts(c["word"])
+                dfa = rn.determinize(extract.fa(fa))
+                if len(dfa.states) <= 3:
+                    pr, ps = ri.product(rules, dfa, "S")
+                    try:
+                        if ri.nonempty(pr, ps, limit=300000) != acc:
+                            raise AssertionError("reference product disagrees with direct acceptance of the word")
+                        core.LOG.count("C17.oracle_crosschecks")
+                    except ri.GaveUp:
+                        pass
         for optim in (7, rng.randrange(9)):
             random.seed(c["seed"])
             ok, g = call(tolib, rules, optim)
